@@ -523,7 +523,7 @@ fn merge_texts(v: Vec<Seg>) -> Vec<Seg> {
     }
     out
 }
-fn segs_strategy(d: Delims) -> BoxedStrategy<Vec<Seg>> {
+pub fn segs_strategy(d: Delims) -> BoxedStrategy<Vec<Seg>> {
     prop::collection::vec(seg_strategy(d, 2), 0..7).prop_map(merge_texts).boxed()
 }
 
